@@ -84,6 +84,8 @@ pub struct World<'a> {
     pub gcount: u64,
     /// tape substitution for C17 experiments: tape id -> (other tape, split position)
     pub tape_split: HashMap<i64, (i64, usize)>,
+    /// tape id -> (other tape, offset, len): only that draw is replaced
+    pub tape_patch: HashMap<i64, (i64, usize, usize)>,
     /// external-key fault position used when an event says extfail (1-based call index)
     pub ext_fail_at: u32,
     pub atoms_used: HashMap<i64, Vec<u8>>,
@@ -138,6 +140,7 @@ impl<'a> World<'a> {
             refoprf: refgroup::oprf_by_name(suite.oprf()),
             gcount: 0,
             tape_split: HashMap::new(),
+            tape_patch: HashMap::new(),
             ext_fail_at: 1,
             atoms_used: HashMap::new(),
         }
@@ -155,6 +158,9 @@ impl<'a> World<'a> {
     }
 
     fn rng(&self, tape: i64) -> TapeRng {
+        if let Some((other, off, len)) = self.tape_patch.get(&tape) {
+            return TapeRng::patched(self.run_seed, tape, *other, *off, *len);
+        }
         match self.tape_split.get(&tape) {
             Some((other, n)) => TapeRng::split(self.run_seed, tape, *other, *n),
             None => TapeRng::new(self.run_seed, tape),
